@@ -134,6 +134,7 @@ func (t *tcpTransport) Send(ctx context.Context, e envelope) error {
 	if err := t.encoder.Encode(e); err != nil {
 		if errors.Is(err, io.EOF) {
 			t.eof = true
+			_ = t.ctxConn.Close()
 		}
 		return fmt.Errorf("tcp transport: send: %w", err)
 	}
@@ -156,6 +157,7 @@ func (t *tcpTransport) Receive(ctx context.Context) (envelope, error) {
 	if err := t.decoder.Decode(&raw); err != nil {
 		if errors.Is(err, io.EOF) {
 			t.eof = true
+			_ = t.ctxConn.Close()
 		}
 		return nil, fmt.Errorf("tcp transport: receive: %w", err)
 	}
